@@ -444,11 +444,11 @@ func runC15Race() {
 	if os.Getenv("VERIF_TIER") == "thorough" {
 		ms = "15000"
 	}
-	cmd := exec.Command(bin, "-test.run", "^TestParallel$", "-test.count", "1", "-test.timeout", "120s")
+	cmd := exec.Command(bin, "-test.run", "^(TestParallel|TestConcurrentShrinks)$", "-test.count", "1", "-test.timeout", "120s")
 	cmd.Env = append(os.Environ(), "VERIF_RACE_MS="+ms, "GORACE=halt_on_error=0")
 	outb, err := cmd.CombinedOutput()
 	out := string(outb)
-	c.Text = []string{fmt.Sprintf("writer + 2 readers on one file (own handles), 3 goroutines doing namespace work in private and common directories, %s ms under the race detector: exit error %v", ms, err)}
+	c.Text = []string{fmt.Sprintf("writer + 2 readers on one file (own handles), 3 goroutines doing namespace work in private and common directories, then pairs of concurrent shrinking Truncates through two handles, %s ms under the race detector: exit error %v", ms, err)}
 	first := func(marker string) string {
 		i := strings.Index(out, marker)
 		if i < 0 {
